@@ -66,6 +66,21 @@ else:
 import allmydata.util.cputhreadpool as _ctp  # noqa: E402
 _ctp._DISABLED = True
 
+if os.environ.get("VERIF_ASYNC_CPU"):
+    # In production defer_to_thread() completes in a later reactor turn, so two operations started back to back on
+    # one object interleave around it (e.g. the two segment decodes of an in-place MDMF update).  With the pool merely
+    # disabled the function runs inline and that interleaving never happens.  Opt-in (set VERIF_ASYNC_CPU=1 before
+    # importing vreactor): the work still runs in the reactor thread, deterministically, but one virtual-clock turn later.
+    from twisted.internet import defer as _defer
+
+    async def _defer_to_thread_later(f, *args, **kwargs):
+        d = _defer.Deferred()
+        vr.callLater(0, d.callback, None)
+        await d
+        return f(*args, **kwargs)
+
+    _ctp.defer_to_thread = _defer_to_thread_later
+
 # twisted.web pull producers / cooperative tasks run on the virtual clock too
 from twisted.internet import task as _task  # noqa: E402
 _task._theCooperator = _task.Cooperator(scheduler=lambda c: vr.callLater(1e-6, c))
